@@ -43,6 +43,10 @@ DC2 = ["t/y", [["varint", "a"]]]
 DP = ["plain/z", [["varint", "n"], ["string", "s"]]]
 DZ = ["t/marker", []]
 DH = ["hold/one", [["record", "inner"], ["string", "tag"]]]
+# member types of two groups that share the group name AND the flattened field list (x, y)
+DGA, DGB, DGC = ["g/a", [["string", "x"]]], ["g/b", [["varint", "y"]]], ["g/c", [["string", "x"], ["varint", "y"]]]
+# two type names that map to one Python class name, with the same fields
+DS1, DS2 = ["net/conn", [["string", "h"], ["varint", "p"]]], ["net_conn", [["string", "h"], ["varint", "p"]]]
 DHL = ["hold/many", [["record[]", "inners"], ["string", "tag"]]]
 
 
@@ -73,6 +77,14 @@ def rec_of(kind, r):
     if kind == "G":
         ks = r.choice([["C", "P"], ["A", "P"], ["B", "C2"], ["P", "C"], ["C", "C2"], ["C2", "C", "P"], ["P", "C2", "C"]])
         return ["grouped", "grp/x", [rec_of(k, r) for k in ks]]
+    if kind == "GS1":
+        return ["grouped", "grp/same", [["rec", DGA, [t()], m], ["rec", DGB, [V.I(r.randint(0, 9))], m]]]
+    if kind == "GS2":
+        return ["grouped", "grp/same", [["rec", DGC, [t(), V.I(r.randint(0, 9))], m]]]
+    if kind == "S1":
+        return ["rec", DS1, [t(), V.I(r.randint(0, 9))], m]
+    if kind == "S2":
+        return ["rec", DS2, [t(), V.I(r.randint(0, 9))], m]
     if kind == "HAB":  # inner collision: one frame holds records of A and of B
         return ["rec", DHL, [["list", [rec_of("A", r), rec_of("B", r)]], t()], m]
     if kind == "GAB":
@@ -80,7 +92,7 @@ def rec_of(kind, r):
     raise ValueError(kind)
 
 
-KINDS = ["A", "B", "C", "C2", "P", "H", "HL", "G", "Z"]
+KINDS = ["A", "B", "C", "C2", "P", "H", "HL", "G", "Z", "GS1", "GS2", "S1", "S2"]
 
 
 def EXHAUSTIVE(tier):
@@ -94,7 +106,12 @@ def gen_cases(rng, tier):
     for _ in range(n):
         nw = r.choice([1, 1, 2, 2, 3])
         ln = r.choice([1, 2, 3, 4, 6, 9, 14] if tier != "thorough" else [1, 2, 3, 5, 8, 14, 40, 120])
-        hist = [[r.below(nw), rec_of(r.choice(KINDS), r)] for _ in range(ln)]
+        kinds = KINDS
+        if r.chance(10):
+            kinds = ["S1", "S2", "P"]           # two type names that share one generated class name
+        elif r.chance(10):
+            kinds = ["GS1", "GS2", "G", "C"]    # groups of one name and one flat layout over different member types
+        hist = [[r.below(nw), rec_of(r.choice(kinds), r)] for _ in range(ln)]
         case = {"writers": nw, "history": hist}
         if r.chance(15):
             # one write that fails (the record cannot be serialised), placed before / between good records of its type
@@ -132,6 +149,22 @@ def _desc_sig(rec):
     return sig + ([nested] if nested else [])
 
 
+def _spec_sig(spec):
+    """the same signature computed from the case SPEC (what the record was created as), independent of anything the
+    library attaches to the built object"""
+    if spec[0] == "grouped":
+        return ["grouped", spec[1], [_spec_sig(x) for x in spec[2]]]
+    name, fields = spec[1]
+    sig = [name, [list(t) for t in fields]]
+    nested = []
+    for (t, _), v in zip(fields, spec[2]):
+        if t == "record" and v[0] == "rec":
+            nested.append(_spec_sig(v))
+        elif t == "record[]" and v[0] == "list":
+            nested += [_spec_sig(x) for x in v[1] if x[0] == "rec"]
+    return sig + ([nested] if nested else [])
+
+
 def _frame_kinds(data):
     """independent view of a binary stream: per frame 'H' (header) / 'D:name' / 'R' / 'G'"""
     import msgpack
@@ -163,6 +196,7 @@ def run_real(case):
         warnings.simplefilter("ignore")
         nw = case["writers"]
         recs = [(w, V.build(s)) for w, s in case["history"]]
+        spec_of = {id(rec): s for (_, s), (_, rec) in zip(case["history"], recs)}
         for _, rec in recs:
             if getattr(rec, "s", None) == "\ud800" and getattr(rec, "n", None) == -1:
                 rec.n = 10 ** 5000           # beyond CPython's int-to-text limit: json.dumps raises ValueError
@@ -190,15 +224,28 @@ def run_real(case):
                 err = None
             except Exception as e:
                 got, err = [], type(e).__name__ + ": " + str(e)[:80]
+            # the same stream read while the application keeps declaring equal descriptors of its own between records
+            # (another reader on the same types, a module re-declaring its record types): the reader's bindings are its own
+            got2, err2 = [], None
+            try:
+                from flow.record import GroupedRecord, RecordDescriptor
+                for rec in RecordStreamReader(io.BytesIO(data)):
+                    got2.append(rec)
+                    for one in (rec.records if isinstance(rec, GroupedRecord) else [rec]):
+                        RecordDescriptor(one._desc.name, list(one._desc.get_field_tuples()))
+            except Exception as e:
+                err2 = type(e).__name__ + ": " + str(e)[:80]
             kinds, clean = _frame_kinds(data)
             hashes = []
             for rec in created[i]:
                 W.all_descs(rec, hashes)
             out["bin"].append({"stream": data.hex(), "error": err, "kinds": kinds,
                                "want_sig": [_desc_sig(r) for r in created[i]], "got_sig": [_desc_sig(r) for r in got],
+                               "spec_sig": [_spec_sig(spec_of[id(r)]) for r in created[i]],
                                "want_obs": [V.observe(r) for r in created[i]], "got_obs": [V.observe(r) for r in got],
                                "pvs": [W.to_pv(r) for r in created[i]], "hashes": hashes,
-                               "hist_pvs": [W.to_pv(r) for r, _ in attempts[i]], "hist_fails": [f for _, f in attempts[i]]})
+                               "hist_pvs": [W.to_pv(r) for r, _ in attempts[i]], "hist_fails": [f for _, f in attempts[i]],
+                               "redeclare_error": err2, "redeclare_sig": [_desc_sig(r) for r in got2]})
         # ---- JSON writers (nested records / grouped are not JSON-serialisable: only flat records go there)
         flat = [(w, rec) for w, rec in recs if type(rec).__name__ != "GroupedRecord"
                 and not any(t.startswith("record") for t, _ in rec._desc.get_field_tuples())]
@@ -229,6 +276,7 @@ def run_real(case):
                     got, err = [], type(e).__name__ + ": " + str(e)[:80]
                 lines = ["D" if '"_type": "recorddescriptor"' in ln else "R" for ln in text.splitlines()]
                 out["json"].append({"error": err, "kinds": lines,
+                                    "spec_sig": [_spec_sig(spec_of[id(r)]) for r in jcreated[i]],
                                     "want_sig": [_desc_sig(r) for r in jcreated[i]],
                                     "got_sig": [_desc_sig(r) for r in got],
                                     "want_obs": [V.observe(r) for r in jcreated[i]],
@@ -272,9 +320,18 @@ def oracle(case, obs):
             for k, (a, b) in enumerate(zip(w["want_sig"], w["got_sig"])):
                 if a != b:
                     return f"{tag}{who}: record {k} created with descriptor {a} was read back with {b}"
+            for k, (a, b) in enumerate(zip(w.get("spec_sig", []), w["got_sig"])):
+                if a != b:
+                    return f"{tag}{who}: record {k} declared as {a} was read back with {b}"
             for k, (a, b) in enumerate(zip(w["want_obs"], w["got_obs"])):
                 if a != b:
                     return f"{tag}{who}: record {k} values differ after the round trip"
+            if adapter == "bin" and not w["error"]:
+                if w.get("redeclare_error"):
+                    return (f"{tag}{who}: reading while equal descriptors are declared between records raised "
+                            f"{w['redeclare_error']}")
+                if w.get("redeclare_sig") != w["got_sig"]:
+                    return f"{tag}{who}: reading while equal descriptors are declared between records yields other records"
             if w["kinds"] and adapter == "bin":
                 if w["kinds"][0] != "H" or any(k.startswith("?") for k in w["kinds"]):
                     return f"{who}: unexpected frame kinds {w['kinds'][:6]}"
